@@ -252,7 +252,7 @@ def run_program(case):
     def compare(tag, out, gk, got, ge):
         if out[0] == 'unspec' or gk == 'recursion':
             return 'discard'
-        if out[0] == 'any':
+        if out[0] in ('any', 'other'):
             if gk == 'value':
                 bad('class:error-expected', f'{tag}: reference expects an error, got {got!r}')
                 return 'fail'
